@@ -161,6 +161,40 @@ def run(repo: Repo) -> Result:
             res.add("C03-ROUTE", fn.qual, "no-render-call", f"{fn.qual}: no node.render call found", fn.file, fn.line)
         for c in rcalls:
             check_wrapped(fn, c, "node.render")
+    # In the outermost routers nothing above can hand an error to env.error any more: every
+    # LiquidError *constructed and raised* there must itself sit in a try body with a routing
+    # handler.  (A raise inside an `except` clause is not covered by the sibling clauses of
+    # the same try: `except LiquidInterrupt: raise LiquidSyntaxError(..)` escapes in lax mode.)
+    for fq in (
+        "liquid.template.BoundTemplate.render_with_context",
+        "liquid.template.BoundTemplate.render_with_context_async",
+        "liquid.template.BoundTemplate.render",
+        "liquid.template.BoundTemplate.render_async",
+        "liquid.parser.Parser._parse",
+        "liquid.parser.Parser.parse",
+    ):
+        try:
+            fn = repo.func(fq)
+        except AnchorMissing:
+            continue
+        res.ob(f"{fn.qual}:raises-routed")
+        for n in walk_no_nested(fn.node):
+            if not isinstance(n, ast.Raise) or n.exc is None:
+                continue
+            e = n.exc.func if isinstance(n.exc, ast.Call) else n.exc
+            nm = text(e).split(".")[-1]
+            if not H.is_sub(nm, "LiquidError") or H.is_sub(nm, "ResourceLimitError"):
+                continue
+            routed = False
+            for _try, hs in hnd.enclosing_try_handlers(fn.node, n):
+                for h in hs:
+                    if H.catches(handler_types(h), nm) :
+                        routed = routes_without_raise(h)
+                        break
+                if routed:
+                    break
+            if not routed:
+                res.add("C03-ROUTE", fn.qual, f"raise-unrouted:{nm}", f"{fn.qual} raises {nm} directly (`{text(n)[:70]}`) where no handler routes it to env.error: the error escapes in lax and warn mode", fn.file, n.lineno)
     for fq in ("liquid.builtin.tags.if_tag.IfTag.parse", "liquid.builtin.tags.unless_tag.UnlessTag.parse"):
         fn = repo.func(fq)
         for n in ast.walk(fn.node):
@@ -329,6 +363,8 @@ def selftest(repo: Repo):
     ENV = "liquid/environment.py"
     CTX = "liquid/context.py"
     return [
+        v("interrupt-handler-raises", "liquid/template.py", "                    if not partial or block_scope:\n                        self.env.error(\n                            LiquidSyntaxError(f\"unexpected '{err}'\", token=node.token)\n                        )\n                    else:\n                        raise\n", "                    if not partial or block_scope:\n                        raise LiquidSyntaxError(\n                            f\"unexpected '{err}'\", token=node.token\n                        ) from err\n                    raise\n", "C03-ROUTE", count=2),
+
         v("get_node-reraises", "liquid/tag.py", "            self.env.error(err)\n", "            raise\n", "C03-ROUTE|liquid.tag.Tag.get_node"),
         v("get_node-no-try", "liquid/tag.py", "        try:\n            return self.parse(stream)\n        except LiquidError as err:", "        if True:\n            return self.parse(stream)\n        try:\n            pass\n        except LiquidError as err:", "C03-ROUTE|liquid.tag.Tag.get_node"),
         v("parser-handler-raises", PARSER, "            except LiquidError as err:\n                self.env.error(err, token=stream.current)\n\n            next(stream)\n\n        stream.block_depth -= 1", "            except LiquidError as err:\n                raise\n\n            next(stream)\n\n        stream.block_depth -= 1", "C03-ROUTE|liquid.parser.Parser.parse_block"),
